@@ -469,6 +469,21 @@ def enumerate_paths(body, start=0, stop_at=(), max_visits=2, limit=50000, prune=
                 some = (not truth) if is_none else truth
                 decisions.append((("discr", mk[2][0]), ("val", 1 if some else 0)))
                 extra_pushed += 1
+            if mk is not None and mk[0] == "pure" and mk[1].endswith("::is_empty") and "0" in t["vals"]:
+                # is_empty(x) == b  <=>  (len(x) == 0) == b
+                truth = s != t["tgts"][t["vals"].index("0")]
+                lk = ("pure", mk[1][:-len("is_empty")] + "len", mk[2])
+                decisions.append((lk, ("val", 0) if truth else ("not", frozenset([0]))))
+                extra_pushed += 1
+            if mk is not None and mk[0] == "pure" and mk[1].endswith("::len"):
+                vh = [int(val) for val, g in zip(t["vals"], t["tgts"]) if g == s]
+                ek = ("pure", mk[1][:-len("len")] + "is_empty", mk[2])
+                if vh == [0]:
+                    decisions.append((ek, ("val", 1)))
+                    extra_pushed += 1
+                elif (vh and 0 not in vh) or (not vh and "0" in t["vals"]):
+                    decisions.append((ek, ("val", 0)))
+                    extra_pushed += 1
             if mk is not None:
                 vals_here = [int(val) for val, g in zip(t["vals"], t["tgts"]) if g == s]
                 if s != t["otherwise"] and len(vals_here) == 1:
@@ -508,3 +523,32 @@ def classify_return(path):
             return "err"
         return "tail:" + rv[1]
     return "other"
+
+
+def emptiness_of(p, is_target):
+    """First decision on path p about whether the collection x with is_target(x) is empty, however it is spelled:
+    `x.is_empty()`, `x.len() == 0` / `!= 0`, `match x.len() { 0 => .., _ => .. }`, with leading negations.
+    True (empty) / False (non-empty) / None (not tested)."""
+    from . import terms as T
+    body = p.body
+    for i, blk in enumerate(p.blocks[:-1]):
+        t = body.blocks[blk]["term"]
+        if t["k"] != "switch":
+            continue
+        v = p.origin_op(t["discr"], i, None)
+        nxt = p.blocks[i + 1]
+        neg = False
+        while isinstance(v, tuple) and v[0] == "un" and v[1] == "Not":
+            v, neg = v[2], not neg
+        zero_t = t["tgts"][t["vals"].index("0")] if "0" in t["vals"] else None
+        if T.is_call(v, r"::is_empty$") and len(v[2]) == 1 and is_target(T.peel(v[2][0])) and zero_t is not None:
+            return (nxt != zero_t) != neg
+        if isinstance(v, tuple) and v[0] == "bin" and v[1] in ("Eq", "Ne") and T.is_const_int(v[3], 0) and zero_t is not None:
+            a = T.peel(v[2], payloads=False)
+            if T.is_call(a, r"::len$") and len(a[2]) == 1 and is_target(T.peel(a[2][0])):
+                truth = (nxt != zero_t) != neg
+                return truth if v[1] == "Eq" else not truth
+        a = T.peel(v, payloads=False) if isinstance(v, tuple) else v
+        if T.is_call(a, r"::len$") and len(a[2]) == 1 and is_target(T.peel(a[2][0])) and zero_t is not None:
+            return nxt == zero_t
+    return None
